@@ -32,24 +32,26 @@ type Case struct {
 	Seed   uint64 `json:"seed"`
 	Layout string `json:"layout"` // follow | single
 	Steps  int    `json:"steps"`
-	Omit   bool   `json:"omit"` // resolver.omit_template_comment
+	Omit   bool   `json:"omit"`   // resolver.omit_template_comment
+	Mangle int    `json:"mangle"` // percentage of type / field names drawn from the name-mangling pools
 }
 
 type Obs struct {
-	Case    int      `json:"case"`
-	Kind    string   `json:"kind"`
-	Seed    uint64   `json:"seed"`
-	Step    int      `json:"step"`
-	Layout  string   `json:"layout"`
-	Omit    bool     `json:"omitTemplateComment"`
-	Ops     []string `json:"ops"`
-	AddOnly bool     `json:"addOnly"`
-	Before  []OFile  `json:"before"`
-	Schema  []OObj   `json:"schema"`
-	After   []OFile  `json:"after"`
-	GenErr  string   `json:"genErr"`
-	Dir     string   `json:"dir"`
-	Note    string   `json:"note,omitempty"`
+	Case    int               `json:"case"`
+	Kind    string            `json:"kind"`
+	Seed    uint64            `json:"seed"`
+	Step    int               `json:"step"`
+	Layout  string            `json:"layout"`
+	Omit    bool              `json:"omitTemplateComment"`
+	Ops     []string          `json:"ops"`
+	AddOnly bool              `json:"addOnly"`
+	Before  []OFile           `json:"before"`
+	Schema  []OObj            `json:"schema"`
+	Names   []OName           `json:"names"`
+	After   []OFile           `json:"after"`
+	GenErr  string            `json:"genErr"`
+	Dir     string            `json:"dir"`
+	Note    string            `json:"note,omitempty"`
 	Raw     map[string]string `json:"raw,omitempty"` // raw text of files that do not parse
 }
 
@@ -113,6 +115,7 @@ func worker(c Case) {
 	if script == nil {
 		script = randomScript
 	}
+	manglePct = c.Mangle
 	w.Sch = initialSchema(r)
 	for k := 0; k <= c.Steps; k++ {
 		o := Obs{Case: c.ID, Kind: c.Kind, Seed: c.Seed, Step: k, Layout: c.Layout, Omit: c.Omit, Dir: dir, AddOnly: true}
@@ -126,6 +129,7 @@ func worker(c Case) {
 		}
 		o.Before = observeAll(dir)
 		o.Schema = w.Sch.flatten(c.Layout)
+		o.Names = w.Sch.names()
 		if err := generate(dir); err != nil {
 			o.GenErr = err.Error()
 			if len(o.GenErr) > 1500 {
@@ -233,7 +237,12 @@ func main() {
 		if i%3 == 2 {
 			layout = "single"
 		}
-		cases = append(cases, Case{Kind: "random", Seed: r.Next(), Layout: layout, Steps: steps + r.Below(2), Omit: i%4 == 1})
+		// five random cases in six draw 60% of their type / field names from the name-mangling pools (both layouts)
+		mangle := 60
+		if i%6 == 4 {
+			mangle = 0
+		}
+		cases = append(cases, Case{Kind: "random", Seed: r.Next(), Layout: layout, Steps: steps + r.Below(2), Omit: i%4 == 1, Mangle: mangle})
 	}
 	for i := range cases {
 		cases[i].ID = i
